@@ -264,13 +264,19 @@ def summarize_tuple_returns(fi):
     """For a scanner that returns `(offset, (a, b, ...))` or None: alternatives per tuple slot."""
     shapes = {}
     defs = {}
+    record_types = set()
     for n in walk_function(fi.node):
         if isinstance(n, ast.Assign) and len(n.targets) == 1 and isinstance(n.targets[0], ast.Name):
             defs.setdefault(n.targets[0].id, []).append(n.value)
     for n in walk_function(fi.node):
-        if isinstance(n, ast.Return) and isinstance(n.value, ast.Tuple) and len(n.value.elts) == 2 \
-                and isinstance(n.value.elts[1], ast.Tuple):
-            elts = n.value.elts[1].elts
+        second = n.value.elts[1] if isinstance(n, ast.Return) and isinstance(n.value, ast.Tuple) and len(n.value.elts) == 2 else None
+        if isinstance(second, ast.Call) and isinstance(second.func, ast.Name) and not second.keywords \
+                and not any(isinstance(a, ast.Starred) for a in second.args) and second.func.id[:1].isupper() | second.func.id.startswith('_'):
+            # a record type built from the same fields (a NamedTuple of the package): the fields are its arguments
+            record_types.add(second.func.id)
+            second = ast.Tuple(elts=list(second.args), ctx=ast.Load())
+        if isinstance(second, ast.Tuple):
+            elts = second.elts
             # one set of alternatives per arity: a return site with a different number of fields is its own shape
             slots = shapes.setdefault(len(elts), [[] for _ in elts])
             for i, e in enumerate(elts):
@@ -283,7 +289,9 @@ def summarize_tuple_returns(fi):
                 for a in alts:
                     if a not in slots[i]:
                         slots[i].append(a)
-    return [shapes[k] for k in sorted(shapes, reverse=True)]
+    out = [shapes[k] for k in sorted(shapes, reverse=True)]
+    fi._record_type = sorted(record_types)[0] if len(record_types) == 1 else None
+    return out
 
 
 # helpers that scan a string character by character and return a string derived from it
@@ -458,6 +466,14 @@ def _install_common_hooks(model, it, facts, log):
                     elif v == '<doc-char>':
                         v = AbsStr(prov=('linkdef-char', i))
                     vals.append(v)
+                rt = getattr(fi, '_record_type', None)
+                if rt:
+                    c = interp.model.resolve(fi.modname, rt)
+                    if isinstance(c, ClassInfo) and interp.namedtuple_type(c) is not None:
+                        try:
+                            return (AbsInt('offset'), interp.namedtuple_type(c)(*vals))
+                        except TypeError:
+                            pass
                 return (AbsInt('offset'), tuple(vals))
             it.func_hooks[mr.qualname] = h_match_reference
 
@@ -483,6 +499,8 @@ def _limit_repeated_readers(model, it):
                 return r
             first = state['first']
             if isinstance(first, tuple) and len(first) == 2:
+                if hasattr(type(first), '_fields'):
+                    return type(first)(first[0], None)       # a named pair stays what it is
                 return (first[0], None)
             return first
         it.func_hooks[fi.qualname] = hook
